@@ -36,7 +36,7 @@ var wgSpecs = map[string]*wgSpec{
 			"(edge = target +1 on a hop, no R# placeholder, no empty map). Non-trivial = the library accepted the model and it has a tuple cycle or an intersection/exclusion " +
 			"and some finite weight >= 2; distinct by model content. Bounded exhaustive part: a small universe (user; doc with p:[doc] and relations a, b each defined by one of 8 leaf forms or a binary operator over two of them: 200 x 200 = 40 000 models) under ALL DFS start orders; quick enumerates every 16th model, thorough the complete universe split over the 16 processes.",
 		aspects: map[string]bool{"weights": true},
-		opts:    gen.GraphOpts{MultiThis: true, DupRestr: true},
+		opts:    gen.GraphOpts{MultiThis: true, DupRestr: true, Interlock: true},
 		maxExh:  5, nRand: 16, builds: 4,
 		nontriv: func(res *wgResult, m *gen.Model) bool {
 			if !res.Accepted {
@@ -89,7 +89,7 @@ var wgSpecs = map[string]*wgSpec{
 			"reachability of T:* nodes in an independent reference graph; no duplicates. Non-trivial = accepted model with >= 2 wildcard restrictions and a tuple cycle; " +
 			"distinct by model content. Bounded exhaustive part: a small universe (user; doc with p:[doc] and relations a, b each defined by one of 8 leaf forms or a binary operator over two of them: 200 x 200 = 40 000 models) under ALL DFS start orders; quick enumerates every 16th model, thorough the complete universe split over the 16 processes.",
 		aspects: map[string]bool{"wildcards": true},
-		opts:    gen.GraphOpts{MultiThis: true, WildBoost: true},
+		opts:    gen.GraphOpts{MultiThis: true, WildBoost: true, Interlock: true},
 		maxExh:  5, nRand: 16, builds: 4,
 		nontriv: func(res *wgResult, m *gen.Model) bool {
 			return res.Accepted && hasClass(wgClasses(res, m), "model:two-or-more-wildcards") && wgHasInfinite(res)
